@@ -48,6 +48,16 @@ def generate(rng, tier):
         cases.append(Case("pat.new", [enc("{" * (d + 1) + "a" + "}" * d)], tag="depth"))
         cases.append(Case("pat.new", [enc("{" * (d + 45) + "a" + "}" * 255)], tag="depth"))
         cases.append(Case("pat.new", [enc("{" * d + "a" + "}" * (d + 1))], tag="depth"))
+    # many expansions: k binary groups side by side have 2^k expansions and only the last one matches (a cap on the
+    # number of expansions tried would lose it), and one group with thousands of alternatives
+    for k in (10, 12, 13, 14):
+        p = "p" + "{a,b}" * k + "-1.0"
+        for nm in ("p" + "b" * k + "-1.0", "p" + "a" * k + "-1.0", "p" + "b" * (k - 1) + "c-1.0", "p" + "ab" * (k // 2) + "-1.0"):
+            cases.append(Case("pat.match", [enc(p), enc(nm)], tag="wide", meta={"groups": k}))
+    for na in (4095, 4096, 4097, 5000, 70000):
+        p = "lib{" + ",".join("x%d" % i for i in range(na)) + "}-1.0"
+        for nm in ("libx%d-1.0" % (na - 1), "libx0-1.0", "libx%d-1.0" % na):
+            cases.append(Case("pat.match", [enc(p), enc(nm)], tag="wide", meta={"groups": 1}))
     # '?' '*' and sets inside alternatives match whole characters, whatever their length in bytes
     for p, nm in (("{a,b}-?.?", "b-\U0001F600.\U0001F600"), ("{xy,a}???", "a\u00e9\u00e9\u00e9"), ("{a,b}?", "a\u6f22"), ("{a,bb}[!x][!x]", "a\U0001F4E6\u00e9"),
                   ("{a,b}-?.?", "b-1.2.3"), ("{a,b}??", "a\u00e9"), ("{a,b}?", "a\u00e9\u00e9"), ("{foo-[0-9,]x,bar-1}", "]x"), ("{foo-[0-9,]x,bar-1}", "foo-1x"),
